@@ -29,7 +29,7 @@ class Undecided(Exception):
 
 
 R1_METHODS = r'(?:map_err|map|and_then|ok_or_else|or_else|unwrap_or_else|then|filter_map|for_each)'
-R1_RE = re.compile(r'\.(' + R1_METHODS + r')\(\s*((?:[A-Za-z_][A-Za-z0-9_]*::)*[A-Z][A-Za-z0-9_]*(?:::[A-Za-z_][A-Za-z0-9_]*)*)\s*\)')
+R1_RE = re.compile(r'\.(' + R1_METHODS + r')\(\s*((?:[A-Za-z_][A-Za-z0-9_]*::)*[A-Z][A-Za-z0-9_]*(?:::[A-Za-z_][A-Za-z0-9_]*)*|(?:[A-Za-z_][A-Za-z0-9_]*::)+[a-z_][A-Za-z0-9_]*)\s*\)')
 
 
 def _parse_opts(rest):
@@ -264,7 +264,11 @@ class Gen:
         if not span:
             raise Undecided('lost anchor: %s %s in %s' % (m.group(2), m.group(3), sf.rel))
         raw = sf.src[span[0]:span[1]]
-        txt = L.strip_attrs_and_comments(raw)
+        feats = tuple(x for x in opts.get('features', '').split(',') if x)
+        raw2 = L.strip_cfg_disabled(raw, feats)
+        if raw2 != raw:
+            self.dropped['cfg_disabled_members'] = self.dropped.get('cfg_disabled_members', 0) + 1
+        txt = L.strip_attrs_and_comments(raw2)
         self.dropped['attributes'] += len(re.findall(r'#\s*\[', L.mask(raw)))
         for a, b, kind in opts['_subst']:
             if a not in txt:
@@ -290,8 +294,8 @@ class Gen:
         # re-join: alias :: [impl sel ::] name ; selector may itself contain '::'
         body = head.split('::', 1)[1].strip()
         impl_sel = None
-        if body.startswith('impl ') or body.startswith('trait '):
-            kw = 'impl' if body.startswith('impl ') else 'trait'
+        if re.match(r'impl[\s<]', body) or body.startswith('trait '):
+            kw = 'impl' if body.startswith('impl') else 'trait'
             k = body.rfind('::')
             impl_sel = body[len(kw):k].strip()
             name = body[k + 2:].strip()
@@ -312,6 +316,17 @@ class Gen:
                     cands.extend(f)
         else:
             cands = L.find_fn(sf.mask, name, lo, hi, 0) or []
+        if len(cands) > 1 and 'nth' not in opts:
+            feats = tuple(x for x in opts.get('features', '').split(',') if x)
+            act = []
+            for c in cands:
+                # text between the previous item end and this header = attributes + docs
+                j = c['start']
+                k = max(sf.mask.rfind(';', 0, j), sf.mask.rfind('}', 0, j), sf.mask.rfind('{', 0, j))
+                if L.cfg_attrs_active(sf.src[k + 1:j], feats):
+                    act.append(c)
+            if len(act) == 1:
+                cands = act
         nth = int(opts.get('nth', 1))
         if len(cands) < nth:
             raise Undecided('lost anchor: fn %s (%s) in %s' % (name, impl_sel, sf.rel))
@@ -340,6 +355,7 @@ class Gen:
         last, lastk = None, 0
         optional = set()
         loopvars = {}
+        etas = []
         for bl in block:
             t = bl.strip()
             if t.startswith('//@'):
@@ -368,6 +384,9 @@ class Gen:
                     hsubsts.append((m.group(1), m.group(2))); continue
                 if dd == 'nobody':
                     nobody = True; continue
+                m = re.match(r'eta\s+(\w+)$', dd)
+                if m:
+                    etas.append(m.group(1)); continue
                 if dd.startswith('+'):
                     # continuation of the previous loop/closure/ghost directive
                     extra = dd[1:].strip()
@@ -458,7 +477,10 @@ class Gen:
                     break
                 edits.append((p, p + len(a), b, kind))
         # R1 automatic eta expansion
-        for m in R1_RE.finditer(bmask):
+        eta_hits = list(R1_RE.finditer(bmask))
+        for nm in etas:
+            eta_hits += list(re.finditer(r'\.(' + R1_METHODS + r')\(\s*(' + re.escape(nm) + r')\s*\)', bmask))
+        for m in eta_hits:
             path = m.group(2)
             if path in ('Some', 'Ok', 'Err', 'Box::new', 'Some', 'String::from'):
                 # vstd knows these constructor functions only as constructors: still expand
